@@ -22,6 +22,8 @@ def run(rep, tier, seed):
         dict(name="toggle", maxinstr=3, maxhist=1, ops="OpsToggle", points="PtsP1small", seeds="NoSeeds", rec_kinds=("U", "A", "V"), max_replay=mr),
         dict(name="other_while_recording", maxinstr=3, maxhist=1, ops="OpsOtherRec", points="PtsP1small", seeds="NoSeeds", rec_kinds=("U", "A", "V"), max_replay=mr),
         dict(name="views", maxinstr=3, maxhist=2, ops="OpsA4", points="PtsP1small", seeds="NoSeeds", rec_kinds=("U", "A", "V"), max_replay=mr),
+        dict(name="prod_square_reciprocal", maxinstr=3, maxhist=2, ops="OpsB1", points="PtsP1small", seeds="NoSeeds", rec_kinds=("U", "A", "V"), max_replay=mr),
+        dict(name="broadcast_assignment", maxinstr=3, maxhist=2, ops="OpsB2", points="PtsP1small", seeds="NoSeeds", rec_kinds=("U", "A", "V"), max_replay=mr),
         dict(name="P2", P=2, maxinstr=2, maxhist=2, ops="OpsCore", points="PtsP2", seeds="NoSeeds", max_replay=mr),
     ]
     if not q:
